@@ -8,6 +8,7 @@ What is extracted (all as ordered tables of strings, `Gen.Schedule.*`):
   eventParams / ruleParams   parameter names (order) of Event and CalendarRule.__init__
   gateArgs / gateAny   `_check_undocumented_features`: call arguments and the `any([...])` list
   helperTzinfo         every `tzinfo=` the date helpers use (function, expression)
+  specialBranches / atStartTime  what include / exclude do with each kind of value
   untilTests / specialTests  the isinstance chains (order matters: datetime is a date)
   untilReturn          what `_normalize_until` finally returns
   freqNames / weekdayNames / subDailyFreqs / wkstExpr
@@ -74,6 +75,26 @@ def _schedule(tree):
         passed = ast.unparse(kw.value)
         wiring.append((kw.arg, passed, _source_of(init, passed, params, call.lineno)))
     out += _pairs("rruleWiring", wiring, "(rrule keyword, expression passed, parameter it was normalised from)")
+    # the interval guard (since fix 66ecebf) and where it sits among the steps of __init__
+    guards = [n for n in init.body if isinstance(n, ast.If) and "interval" in ast.unparse(n.test)]
+    if len(guards) != 1 or not any(isinstance(b, ast.Raise) for b in guards[0].body):
+        raise PinError("expected exactly one `if <interval test>: raise ...` in CalendarRule.__init__")
+    rz = [b for b in guards[0].body if isinstance(b, ast.Raise)][0]
+    out += _strs("intervalGuard", [ast.unparse(guards[0].test), ast.unparse(rz.exc.func) if isinstance(rz.exc, ast.Call) else ast.unparse(rz.exc)],
+                 "the interval precondition and the exception it raises")
+    steps = []
+    for st in init.body:
+        if isinstance(st, ast.Expr) and isinstance(st.value, ast.Constant):
+            continue
+        if isinstance(st, ast.Assign):
+            v = st.value
+            rhs = (ast.unparse(v.func) + "(...)") if isinstance(v, ast.Call) and len(ast.unparse(v)) > 60 else ast.unparse(v)
+            steps.append(", ".join(ast.unparse(t) for t in st.targets) + " = " + rhs)
+        elif isinstance(st, ast.If):
+            steps.append("if " + ast.unparse(st.test))
+        else:
+            steps.append(ast.unparse(st))
+    out += _strs("initSteps", steps, "the statements of CalendarRule.__init__, in order")
     # the ruleset the rule is added to, and what include / exclude do
     out += _strs(
         "initCalls",
@@ -109,7 +130,7 @@ def _schedule(tree):
     out += _strs("gateTest", [ast.unparse(ifs[0].test)], "the gate condition")
     # tzinfo used by the helpers
     tz = []
-    for fname in ("_normalize_start_date", "_normalize_until", "_process_special_cases"):
+    for fname in ("_normalize_start_date", "_normalize_until", "_at_start_time", "_process_special_cases"):
         f = find_func(cr, fname)
         found = []
         for n in ast.walk(f):
@@ -139,8 +160,16 @@ def _schedule(tree):
                  [ast.unparse(n) for n in sorted((m for m in ast.walk(nu) if isinstance(m, ast.Assign)), key=lambda m: m.lineno)],
                  "assignments of _normalize_until")
     sp = find_func(cr, "_process_special_cases")
-    combos = [ast.unparse(n) for n in ast.walk(sp) if isinstance(n, ast.Call) and ast.unparse(n.func) == "datetime.combine"]
-    out += _strs("specialCombines", combos, "datetime.combine calls of _process_special_cases")
+    # what each isinstance branch of _process_special_cases does with its value
+    branches = []
+    for n in ast.walk(sp):
+        if isinstance(n, ast.If) and ast.unparse(n.test).startswith("isinstance(case"):
+            branches.append((n.lineno, ast.unparse(n.test), " ; ".join(ast.unparse(b).replace("\n", " ; ") for b in n.body)))
+    out += _pairs("specialBranches", [(t, b) for _, t, b in sorted(branches)],
+                  "(isinstance test, what is done with the value) in _process_special_cases")
+    ast_ = find_func(cr, "_at_start_time")
+    out += _strs("atStartTime", [ast.unparse(n.value) for n in ast.walk(ast_) if isinstance(n, ast.Return)],
+                 "a date-valued argument: that date at the start's time of day in the start's zone")
     # frequency / weekday names
     def names_of(const):
         for n in tree.body:
@@ -202,4 +231,35 @@ def _schedule(tree):
             br.append(("else", "raise" if any(isinstance(s, ast.Raise) for s in node.orelse) else "other"))
             break
     out += _pairs("intListBranches", br, "process_list_of_ints: (test, returned expression)")
+    return out
+
+
+@group("DateParse", "snowfakery/template_funcs.py", ["C15"])
+def _dateparse(tree):
+    """parse_date / parse_datetimespec as Schedule.py uses them: a datetime keeps its zone, a naive
+    one means UTC; a date string is read by dateutil; only strings go through the cached helpers."""
+
+    def chain(fname):
+        f = find_func(tree, fname)
+        res = []
+        for st in f.body:
+            node = st
+            while isinstance(node, ast.If):
+                res.append((ast.unparse(node.test), " ; ".join(ast.unparse(b).replace("\n", " ; ") for b in node.body)))
+                if len(node.orelse) == 1 and isinstance(node.orelse[0], ast.If):
+                    node = node.orelse[0]
+                else:
+                    if node.orelse:
+                        res.append(("else", " ; ".join(ast.unparse(b).replace("\n", " ; ") for b in node.orelse)))
+                    break
+            if isinstance(st, ast.Return):
+                res.append(("return", ast.unparse(st.value)))
+        return res
+
+    out = _pairs("parseDatetimespec", chain("parse_datetimespec"), "parse_datetimespec: (test, body)")
+    out += _pairs("parseDate", chain("parse_date"), "parse_date: (test, body)")
+    for helper in ("_parse_datetime_str", "_parse_date_str"):
+        f = find_func(tree, helper)
+        body = [s for s in f.body if not (isinstance(s, ast.Expr) and isinstance(s.value, ast.Constant))]
+        out += _strs(helper.strip("_").replace("_", "") + "Body", [ast.unparse(s).replace("\n", " ; ") for s in body])
     return out
